@@ -79,6 +79,12 @@ def impl(c):
         names_ok = all(x for x in common.run_model([["nameok"] + _enc_str(nm) for nm in names])) and all(t[0] == "1" for t in common.run_model([["nameok"] + _enc_str(nm) for nm in names])) if names else True
         if names_ok and (bt is None or strip(_canon(G, kind, bt)) != orig_nw): A.append("TXT round trip differs: %s" % (None if bt is None else strip(_canon(G, kind, bt)),))
         if strip(_canon(G, kind, obj)) != orig_nw: A.append("writing changed the object")
+        # object-type argument: any letter case names the same reader; an unknown type is answered with None, not with an exception
+        try:
+            bu = dp.read_json(pj, kind.upper()); bv = dp.read_txt(pt, kind.capitalize())
+            if bu is None or strip(_canon(G, kind, bu)) != orig_nw or (names_ok and (bv is None or strip(_canon(G, kind, bv)) != orig_nw)): A.append("round trip with the object type spelled in another letter case differs")
+            if dp.read_json(pj, "nonsense") is not None or dp.read_txt(pt, "nonsense") is not None: A.append("an unknown object type gave an object")
+        except BaseException as e: A.append("reading with an unusual object-type argument raised %s" % type(e).__name__)
         raw_t = open(pt, "rb").read(); raw_j = open(pj, "rb").read()
         # model writer
         M = common.matrix(G); wl = ["txtwrite", kidx, n] + [x for nm in names for x in _enc_str(nm)] + common.enc_graph(G)
